@@ -274,7 +274,8 @@ def combo_args(cb):
     elif cb["algo"] == "iso2": a += ["--signed", "false", "--isotrees", "true"]
     elif cb["algo"] == "signed+fvs": a += ["--fvstrees", "true"]
     if cb["parallel"] is not None: a += ["--parallel", "true" if cb["parallel"] else "false"]
-    if cb["cores"] is not None: a += ["--cores", str(cb["cores"])]
+    if cb["cores"] is not None:      # the MPI demo has no such option: "--cores=3" is ignored (allow_unregistered), "--cores 3" makes 3 a second positional -> rejected
+        a += ["--cores=%d" % cb["cores"]] if cb["prog"] == "mpi" else ["--cores", str(cb["cores"])]
     if cb["verbose"]: a += (cb.get("vform") or "--verbose").split()
     if cb["printcycles"]: a += ["--printcycles"] + (["true"] if cb.get("vform") == "--verbose true" else [])
     if cb.get("k") is not None: a += ["--k", str(cb["k"])]
@@ -288,14 +289,11 @@ def combo_of_args(prog, args):
     i = 0
     while i < len(args):
         if args[i] in ("--verbose", "-v", "--printcycles"):
-            val = True
-            if i + 1 < len(args) and args[i + 1] in ("true", "false"):
-                val = args[i + 1] == "true"
-                if args[i] != "--printcycles": cb["vform"] = args[i] + " true"
-                i += 1
-            elif args[i] != "--printcycles": cb["vform"] = args[i]
-            cb["verbose" if args[i - (1 if args[i] in ("true", "false") else 0)] != "--printcycles" else "printcycles"] = val
-            i += 1
+            flag = args[i]; explicit = i + 1 < len(args) and args[i + 1] == "true"
+            if flag == "--printcycles": cb["printcycles"] = True
+            else: cb["verbose"] = True; cb["vform"] = flag + (" true" if explicit else "")
+            i += 2 if explicit else 1
+        elif "=" in args[i]: v[args[i].split("=", 1)[0]] = args[i].split("=", 1)[1]; i += 1
         else: v[args[i]] = args[i + 1]; i += 2
     if "--parallel" in v: cb["parallel"] = v["--parallel"] == "true"
     if "--cores" in v: cb["cores"] = int(v["--cores"])
@@ -328,7 +326,7 @@ def gen_combos(rng, tier, hw, have_mpi):
                         for verbose in (False, True):
                             for pc in (False, True):
                                 out.append({"prog": prog, "algo": algo, "parallel": par, "cores": cores, "verbose": verbose, "printcycles": pc,
-                                            "k": (3 if prog == "approx" and rng.random() < 0.3 else None), "np": None})
+                                            "vform": rng.choice(["--verbose", "-v", "--verbose true"]), "k": (3 if prog == "approx" and rng.random() < 0.3 else None), "np": None})
     else:
         # covering set: every (parallel, verbose, cores-class) for both demos, algorithm / printcycles rotated
         n = 0
@@ -337,7 +335,7 @@ def gen_combos(rng, tier, hw, have_mpi):
                 for verbose in (False, True):
                     for cores in (None, 1, 3, hw + 4):
                         out.append({"prog": prog, "algo": algos[n % len(algos)], "parallel": par, "cores": cores, "verbose": verbose,
-                                    "printcycles": n % 3 == 0, "k": (3 if prog == "approx" and n % 4 == 1 else None), "np": None})
+                                    "vform": ["--verbose", "-v", "--verbose true"][n % 3], "printcycles": n % 3 == 0, "k": (3 if prog == "approx" and n % 4 == 1 else None), "np": None})
                         n += 1
         for _ in range(12):
             out.append({"prog": rng.choice(["mcb", "approx"]), "algo": rng.choice(algos), "parallel": rng.choice([None, True, False]), "cores": rng.choice(coresv),
@@ -357,8 +355,22 @@ def combo_text(cb):
 def run_demo(exe, cb, tiny):
     cmd = [exe, tiny] + combo_args(cb)    # file first: "--verbose <file>" would take the file name as the flag's value
     if cb["prog"] == "mpi":
-        cmd = MPIEXEC + ["-n", str(cb["np"] or 1)] + cmd
-    rc, so, se = lib.sh(cmd, timeout=120)
+        # one output file per rank: the ranks' unbuffered stderr writes would otherwise interleave inside the hook line
+        od = os.path.join(lib.BUILD, "c20_mpi_out", lib.sha(" ".join(cmd), cb["np"])[:16])
+        shutil.rmtree(od, ignore_errors=True); os.makedirs(od)
+        cmd = MPIEXEC + ["--output-filename", od, "-n", str(cb["np"] or 1)] + cmd
+        rc, so0, se0 = lib.sh(cmd, timeout=120)
+        so, se = "", ""
+        for r_ in range(cb["np"] or 1):
+            for nm in ("stdout", "stderr"):
+                f = os.path.join(od, "1", "rank.%d" % r_, nm)
+                t = open(f).read() if os.path.exists(f) else ""
+                if nm == "stdout": so += t
+                else: se += t
+        if rc != 0: se += se0[-400:]
+        shutil.rmtree(od, ignore_errors=True)
+    else:
+        rc, so, se = lib.sh(cmd, timeout=120)
     algo, says, actives = None, None, []
     for l in so.splitlines():
         if l.startswith("Using cores: "): says = l[len("Using cores: "):].strip()
@@ -367,20 +379,32 @@ def run_demo(exe, cb, tiny):
     for l in se.splitlines():
         if HOOK_MARK in l:
             actives.append(l.split(HOOK_MARK, 1)[1].strip())
-    return {"rc": rc, "algo": algo, "says": says, "actives": actives, "stdout": so[-600:], "stderr": se[-600:], "cmd": " ".join(cmd)}
+    return {"rc": rc, "algo": algo, "says": says, "actives": actives, "np": (cb["np"] or 1) if cb["prog"] == "mpi" else None, "stdout": so[-600:], "stderr": se[-600:], "cmd": " ".join(cmd)}
 
 
 def demo_observed(ob):
+    if ob.get("np") and len(ob["actives"]) not in (0, ob["np"]):
+        return "ALGO %s SAYS %s ACTIVE COUNT:%d/%d" % (ob["algo"], ob["says"] if ob["says"] is not None else "-", len(ob["actives"]), ob["np"])
     act = ob["actives"][0] if ob["actives"] and all(a == ob["actives"][0] for a in ob["actives"]) else ("MISSING" if not ob["actives"] else "MIXED:" + ",".join(ob["actives"]))
     return "ALGO %s SAYS %s ACTIVE %s" % (ob["algo"], ob["says"] if ob["says"] is not None else "-", act)
 
 
-def demo_predictions(combos, dflt, bhw):
-    """{(kv,dv): [line per combo]} with the KNOB field removed (not observable)"""
+def mpi_default(hexe, np_):
+    """TBB's default as seen by a process started by the same mpiexec command line (binding may shrink the affinity mask)"""
+    rc, so, se = lib.sh(MPIEXEC + ["-n", str(np_), hexe], inp="T 0\n", timeout=120)
+    for l in so.splitlines():
+        im = parse_impl(l)
+        if im:
+            return im["dflt"], im["bhw"]
+    return None
+
+
+def demo_predictions(combos, env):
+    """{(kv,dv): [line per combo]} with the KNOB field removed (not observable); env[i] = (dflt, bhw) of combo i"""
     preds = {}
     for kv in "FO":
         for dv in "FO":
-            lines = ["%s %s %s %d %d %s" % (kv, dv, cb["prog"], dflt, bhw, combo_model_fields(cb)[0]) for cb in combos]
+            lines = ["%s %s %s %d %d %s" % (kv, dv, cb["prog"], env[i][0], env[i][1], combo_model_fields(cb)[0]) for i, cb in enumerate(combos)]
             res = lib.run_model("c20demo", lines, group=GROUP) if lines else []
             outl = []
             for l in res:
@@ -447,7 +471,7 @@ def check(tier, seed):
             c.extra["tbb_default_active_value"] = dflt; c.extra["boost_hardware_concurrency"] = bhw
     if ok and exe and dflt is not None:
         corpus = [l for l in lib.corpus_cases(PID) if l.startswith("T ")]
-        cases = [D4_WITNESS] + corpus
+        cases = [D4_WITNESS] + [x for x in dict.fromkeys(corpus) if x != D4_WITNESS]
         modes = ["corpus"] * len(cases)
         nseq = 200 if tier == "quick" else 2000
         for _ in range(nseq):
@@ -511,10 +535,21 @@ def check(tier, seed):
             open(tiny, "w").write(TINY)
             combos = [combo_of_args(l.split()[1], l.split()[2:]) for l in [D5_WITNESS] + [x for x in lib.corpus_cases(PID) if x.startswith("DEMO ")]]
             combos += gen_combos(c.rng, tier, dflt, "mpi" in demo_exe)
+            seen_txt = set()
+            combos = [cb for cb in combos if not (combo_text(cb) in seen_txt or seen_txt.add(combo_text(cb)))]
             combos = [cb for cb in combos if demo_exe.get(cb["prog"], (None, None))[0]]
             with cf.ThreadPoolExecutor(max_workers=lib.NPROC) as ex:
                 obs = list(ex.map(lambda cb: run_demo(demo_exe[cb["prog"]][0], cb, tiny), combos))
-            preds = demo_predictions(combos, dflt, bhw)
+            mpienv = {}
+            for n_ in sorted({cb["np"] or 1 for cb in combos if cb["prog"] == "mpi"}):
+                mpienv[n_] = mpi_default(exe, n_)
+                if mpienv[n_] is None:
+                    c.notes.append("could not read TBB's default under mpiexec -n %d; MPI demo runs dropped" % n_)
+            keep = [i for i, cb in enumerate(combos) if cb["prog"] != "mpi" or mpienv.get(cb["np"] or 1)]
+            combos, obs = [combos[i] for i in keep], [obs[i] for i in keep]
+            env = [(mpienv[cb["np"] or 1] if cb["prog"] == "mpi" else (dflt, bhw)) for cb in combos]
+            c.extra["tbb_default_under_mpiexec"] = {str(k): v for k, v in mpienv.items()}
+            preds = demo_predictions(combos, env)
             reported = {}; nbad = 0; d5_witness_fails = None; d5_hit_direct = False
             for i, (cb, ob) in enumerate(zip(combos, obs)):
                 txt = combo_text(cb)
@@ -528,7 +563,9 @@ def check(tier, seed):
                     continue
                 nbad += 1
                 expl = None
-                for vers, ids in ((("O", "F"), ["D4"]), (("F", "O"), ["D5"]), (("O", "O"), ["D4", "D5"])):
+                # the knob's version was decided in part A; only explanations consistent with it are admissible
+                cands = ((("O", "F"), ["D4"]), (("O", "O"), ["D4", "D5"])) if d4_open else ((("F", "O"), ["D5"]),)
+                for vers, ids in cands:
                     if seen == preds[vers][i] and all(x in known for x in ids) and ob["rc"] == 0:
                         expl = ids; break
                 if expl:
@@ -553,8 +590,8 @@ def check(tier, seed):
             c.extra["demo_runs"] = len(combos); c.extra["demo_disagreements_checked"] = nbad
             if "D5" in known:
                 if d5_witness_fails and not d5_hit_direct and d4_open and "D4" in known:
-                    hit("D5", "demo run '%s' fails; at run time D5 is masked by D4 (with the as-found knob function 'applied' and 'not applied' both leave the default %d in force); "
-                              "the observation is what demo_knob_orig predicts" % (D5_WITNESS[5:], dflt))
+                    hit("D5", "demo run '%s' fails, but while D4 is open D5 cannot be told apart at run time (with the as-found knob function 'applied' and 'not applied' "
+                              "both leave the default %d in force): the observation is consistent with demo_knob_orig" % (D5_WITNESS[5:], dflt))
                 elif d5_witness_fails is False:
                     c.notes.append("stale known finding D5: witness '%s' no longer fails; change its status to fixed" % D5_WITNESS)
                     print("NOTE: property=C20 stale known finding D5: witness '%s' no longer fails" % D5_WITNESS)
@@ -562,7 +599,8 @@ def check(tier, seed):
         c.known(known[fid], "%s %s (%d failing run(s) match the as-found model; first: %s)" % (fid, known[fid].get("signature", ""), n, what))
     return c.finish(
         assumptions=["oneTBB semantics assumed in the model (not proved): active_value(max_allowed_parallelism) = minimum over the live global_control objects, the runtime default if none, "
-                     "not clamped by the hardware; constructing a control with value 0 aborts.  Exercised against the installed libtbb by the raw create/destroy histories of this run.",
+                     "not clamped by the hardware (oneTBB 2021.8 caps the reported value at 257 once its scheduler has started; all reads of this check happen before any parallel work and "
+                     "the generated knob arguments are <= 128); constructing a control with value 0 aborts.  Exercised against the installed libtbb by the raw create/destroy histories of this run.",
                      "one thread at a time calls set_global_tbb_concurrency (the repaired function keeps its control in an unsynchronised function-local static)",
                      "boost::program_options: vm.count(\"cores\") is 1 because the option has a default_value (model field o_cores_count = true)",
                      "TBB_VERSION_MAJOR > 2020 branch of util.hpp (installed oneTBB); the task_scheduler_init branch for older TBB is not compiled here",
@@ -590,7 +628,8 @@ def replay(path):
         tiny = os.path.join(lib.BUILD, "c20_tiny.gr"); open(tiny, "w").write(TINY)
         cb = combo_of_args(r["prog"], r["args"]); cb["np"] = r.get("np")
         ob = run_demo(dexe, cb, tiny)
-        seen = demo_observed(ob); pred = demo_predictions([cb], im["dflt"], im["bhw"])[("F", "F")][0]
+        env = mpi_default(hexe, cb["np"] or 1) if cb["prog"] == "mpi" else (im["dflt"], im["bhw"])
+        seen = demo_observed(ob); pred = demo_predictions([cb], [env])[("F", "F")][0]
         why = judge_demo(cb, ob, im["bhw"])
         print("cmd  :", ob["cmd"]); print("model:", pred); print("impl :", seen); print("judge:", why)
         if why or seen != pred:
